@@ -212,36 +212,34 @@ Definition decl (t : tid) (b : bstate) : bstate :=
   let (x, g') := add_node t (ls_g (bs_ls b)) in
   mkBS (with_g (bs_ls b) g') (bs_idx b ++ [x]) (bs_occ b) (bs_total b).
 
-(* `cap` = length of literal_occurences = max(100_000, total_features argument) *)
-Definition d4_line (cap : N) (b : bstate) (t : d4token) : option bstate :=
+(* literal_occurences grows on demand (repair F11): no bound on the feature ids of an edge *)
+Definition d4_line (b : bstate) (t : d4token) : option bstate :=
   match t with
   | DEdge from to feats =>
     let fs := map Z.abs_nat feats in
-    if forallb (fun f => (Z.abs_N f <? cap)%N) feats then
-      match idx_get (bs_idx b) from, idx_get (bs_idx b) to with
-      | Some a, Some c =>
-        match ls_add_edge a c (bs_ls b) with
+    match idx_get (bs_idx b) from, idx_get (bs_idx b) to with
+    | Some a, Some c =>
+      match ls_add_edge a c (bs_ls b) with
+      | None => None
+      | Some s1 =>
+        match resolve_weighted_edge a c feats s1 with
         | None => None
-        | Some s1 =>
-          match resolve_weighted_edge a c feats s1 with
-          | None => None
-          | Some s2 =>
-            Some (mkBS s2 (bs_idx b) (fs ++ bs_occ b) (fold_left Nat.max fs (bs_total b)))
-          end
+        | Some s2 =>
+          Some (mkBS s2 (bs_idx b) (fs ++ bs_occ b) (fold_left Nat.max fs (bs_total b)))
         end
-      | _, _ => None                          (* index out of bounds / subtraction overflow *)
       end
-    else None                                 (* literal_occurences[..] out of bounds *)
+    | _, _ => None                          (* index out of bounds / subtraction overflow *)
+    end
   | DAnd => Some (decl GAnd b)
   | DOr => Some (decl GOr b)
   | DTrue => Some (decl GTrue b)
   | DFalse => Some (decl GFalse b)
   end.
 
-Fixpoint d4_lines (cap : N) (b : bstate) (toks : list d4token) : option bstate :=
+Fixpoint d4_lines (b : bstate) (toks : list d4token) : option bstate :=
   match toks with
   | [] => Some b
-  | t :: r => match d4_line cap b t with Some b' => d4_lines cap b' r | None => None end
+  | t :: r => match d4_line b t with Some b' => d4_lines b' r | None => None end
   end.
 
 Fixpoint lookup_nat (m : list (nat * nat)) (k : nat) : option nat :=
@@ -464,12 +462,10 @@ Definition to_graph (g : sgraph) : graph :=
       (seq 0 (length (sg_nodes g))).
 
 Definition build_d4_graph (toks : list d4token) (n0 : nat) : option (sgraph * nat * nat) :=
-  let cap := N.max 100000 (N.of_nat n0) in
-  match d4_lines cap (mkBS (mkLS sg_empty [] []) [] [] n0) toks with
+  match d4_lines (mkBS (mkLS sg_empty [] []) [] [] n0) toks with
   | None => None
   | Some b =>
-    if (100000 <=? N.of_nat n0)%N then None   (* literal_occurences[total_features] in the free-feature loop *)
-    else if negb (sg_alive (ls_g (bs_ls b)) 0) then None   (* no declaration at all *)
+    if negb (sg_alive (ls_g (bs_ls b)) 0) then None   (* no declaration at all *)
     else
       match add_free (bs_occ b) (seq 1 (bs_total b)) 0 (bs_ls b) with
       | None => None
